@@ -177,6 +177,19 @@ CHECKS = {
         note='Trusted: z3 (linear real arithmetic), DBSCAN model (components of |a-b| <= eps, ValueError on empty input and eps <= 0), '
              'de-skew angle 0 (no or horizontal lines); non-zero de-skew runs through shapely / cv2 and is outside.',
         design='4/C12'),
+    'C07': dict(
+        text='Bounded symbolic execution of the real BaseEngineLineOCR.process_lines (ctc bookkeeping) and PageOCR.process_page with line '
+             'crops of SYMBOLIC width (every ordering, equal widths, widths beyond the engine maximum) and symbolic batch size 1..16: the '
+             'padded batch tensor is a placement canvas recording which image was written at which offset, the network is an '
+             'environment stub whose output for a row depends only on the image placed in that row.  On every path z3 decides for every '
+             'input position: the transcription was computed from that image on exactly its own width (or the engine maximum when it '
+             'is wider), the logits are that row\'s, the frame window starts at the first cell of the image and ends with the last '
+             'cell lying entirely inside it, tight-crop returns that window, no-logits returns none.  Sparse storage: on one frame of '
+             'log-weights an entry is kept unchanged iff its posterior is >= 1e-4 (softmax through the quotient abstraction).  '
+             'Bound: 0..3 lines (quick), 0..4 (thorough).',
+        note='Trusted: z3 (linear integer arithmetic with floor division); the stub network (locality of frames is the property\'s own '
+             'hypothesis); witness replay on the real process_lines with a recording network.',
+        design='4/C07'),
 }
 
 NOT_APPLICABLE = {
